@@ -37,8 +37,7 @@ section mono
 set_option linter.unusedSectionVars false
 variable {K : Type} [Field K] [LinearOrder K] [IsStrictOrderedRing K]
 
-/-- weight a kernel puts on offset `s` -/
-def wt (ker : List (Int × K)) (s : Int) : K := wsum ker (fun q => if q = s then 1 else 0)
+-- `wt ker s` (weight a kernel puts on offset `s`) lives in `Model/C12` since the driver evaluates `faceRise` with it
 /-- cumulative weight of the offsets `≤ s` -/
 def cumw (ker : List (Int × K)) (s : Int) : K := wsum ker (fun q => if q ≤ s then 1 else 0)
 
